@@ -25,7 +25,7 @@ META = {
             "sequence of length <=2 (quick) / <=3 (thorough) over 4 kex methods with either side "
             "initiating. Faults on a 16-combination matrix (every kex with ed25519, every host-key "
             "algorithm with curve25519): XOR 0x01 at every byte of the three length prefixes, first/last "
-            "and every 8th byte of every reply field (quick) / at every byte position, plus XOR 0x80 on "
+            "and every 8th (fields > 160 bytes: every 32nd) byte of every reply field (quick) / at every byte position, plus XOR 0x80 on "
             "the cheap combinations (thorough); host key replaced by another key of the same / a "
             "different type; signature replaced by a genuine signature over another hash; fields "
             "swapped; gex GROUP p/g bytes altered.",
@@ -193,7 +193,8 @@ def judge_honest(acc, kex, alg, rekeys, ex):
 
 # ---------------------------------------------------------------------------------- faults
 def quick_offsets(maxlen):
-    offs = [0, 1, 2, 3, 4] + list(range(12, maxlen, 8)) + [-1]
+    step = 8 if maxlen <= 160 else 32      # long mpints (group14/16 public values, RSA blobs)
+    offs = [0, 1, 2, 3, 4] + list(range(12, maxlen, step)) + [-1]
     return offs
 
 
